@@ -197,6 +197,19 @@ func pickDst(kind, need int, prev []byte) []byte {
 	return nil
 }
 
+// tight returns, on every other call, a copy of the encoded bytes whose
+// capacity equals its length (a page read into an exactly sized buffer, a
+// three-index sub-slice): decoders that over-read into spare capacity take
+// another path for such inputs.
+func tight(call int, b []byte) []byte {
+	if call%2 == 0 {
+		return b
+	}
+	t := make([]byte, len(b))
+	copy(t, b)
+	return t[:len(b):len(b)]
+}
+
 func runCase(c Case, o *kit.Obs) *kit.Failure {
 	l := c.leaf()
 	vals := c.values()
@@ -223,7 +236,7 @@ func runCase(c Case, o *kit.Obs) *kit.Failure {
 			plainIn = src
 			encoded, err = e.EncodeBoolean(pickDst(dk, len(src)+8, prevEnc), src)
 			if err == nil {
-				decoded, err = e.DecodeBoolean(pickDst(dk, len(src), prevDec), encoded)
+				decoded, err = e.DecodeBoolean(pickDst(dk, len(src), prevDec), tight(call, encoded))
 				// decoded is bit-packed; compare only the first n bits
 				if err == nil {
 					for i := 0; i < n; i++ {
@@ -246,7 +259,7 @@ func runCase(c Case, o *kit.Obs) *kit.Failure {
 			encoded, err = e.EncodeInt32(pickDst(dk, 4*n+16, prevEnc), src)
 			if err == nil {
 				var out []int32
-				out, err = e.DecodeInt32(bytesToI32(pickDst(dk, 4*n, prevDec)), encoded)
+				out, err = e.DecodeInt32(bytesToI32(pickDst(dk, 4*n, prevDec)), tight(call, encoded))
 				decoded = i32bytes(out)
 			}
 		case "int64":
@@ -258,7 +271,7 @@ func runCase(c Case, o *kit.Obs) *kit.Failure {
 			encoded, err = e.EncodeInt64(pickDst(dk, 8*n+16, prevEnc), src)
 			if err == nil {
 				var out []int64
-				out, err = e.DecodeInt64(bytesToI64(pickDst(dk, 8*n, prevDec)), encoded)
+				out, err = e.DecodeInt64(bytesToI64(pickDst(dk, 8*n, prevDec)), tight(call, encoded))
 				decoded = i64bytes(out)
 			}
 		case "int96":
@@ -272,7 +285,7 @@ func runCase(c Case, o *kit.Obs) *kit.Failure {
 			encoded, err = e.EncodeInt96(pickDst(dk, 12*n+16, prevEnc), src)
 			if err == nil {
 				var out []deprecated.Int96
-				out, err = e.DecodeInt96(nil, encoded)
+				out, err = e.DecodeInt96(nil, tight(call, encoded))
 				for _, x := range out {
 					for k := 0; k < 3; k++ {
 						decoded = binary.LittleEndian.AppendUint32(decoded, x[k])
@@ -288,7 +301,7 @@ func runCase(c Case, o *kit.Obs) *kit.Failure {
 			encoded, err = e.EncodeFloat(pickDst(dk, 4*n+16, prevEnc), src)
 			if err == nil {
 				var out []float32
-				out, err = e.DecodeFloat(bytesToF32(pickDst(dk, 4*n, prevDec)), encoded)
+				out, err = e.DecodeFloat(bytesToF32(pickDst(dk, 4*n, prevDec)), tight(call, encoded))
 				decoded = i32bytes(f32toI32(out))
 			}
 		case "double":
@@ -300,7 +313,7 @@ func runCase(c Case, o *kit.Obs) *kit.Failure {
 			encoded, err = e.EncodeDouble(pickDst(dk, 8*n+16, prevEnc), src)
 			if err == nil {
 				var out []float64
-				out, err = e.DecodeDouble(bytesToF64(pickDst(dk, 8*n, prevDec)), encoded)
+				out, err = e.DecodeDouble(bytesToF64(pickDst(dk, 8*n, prevDec)), tight(call, encoded))
 				decoded = i64bytes(f64toI64(out))
 			}
 		case "bytes":
@@ -323,7 +336,7 @@ func runCase(c Case, o *kit.Obs) *kit.Failure {
 					}
 					dirtyOffs = dirtyOffs[:0]
 				}
-				out, offs, err = e.DecodeByteArray(pickDst(dk, len(data), prevDec), encoded, dirtyOffs)
+				out, offs, err = e.DecodeByteArray(pickDst(dk, len(data), prevDec), tight(call, encoded), dirtyOffs)
 				if err == nil {
 					if len(offs) == 0 && n == 0 {
 						offs = []uint32{0}
@@ -352,7 +365,7 @@ func runCase(c Case, o *kit.Obs) *kit.Failure {
 			plainIn = data
 			encoded, err = e.EncodeFixedLenByteArray(pickDst(dk, len(data)+16, prevEnc), data, c.Size)
 			if err == nil {
-				decoded, err = e.DecodeFixedLenByteArray(pickDst(dk, len(data), prevDec), encoded, c.Size)
+				decoded, err = e.DecodeFixedLenByteArray(pickDst(dk, len(data), prevDec), tight(call, encoded), c.Size)
 			}
 		case "levels":
 			src := make([]uint8, n)
@@ -362,7 +375,7 @@ func runCase(c Case, o *kit.Obs) *kit.Failure {
 			plainIn = src
 			encoded, err = e.EncodeLevels(pickDst(dk, n+16, prevEnc), src)
 			if err == nil {
-				decoded, err = e.DecodeLevels(pickDst(dk, n, prevDec), encoded)
+				decoded, err = e.DecodeLevels(pickDst(dk, n, prevDec), tight(call, encoded))
 			}
 		}
 		if err != nil {
